@@ -31,7 +31,7 @@ if not p:
     p=c[-1] if c else ''
 print(p)")
     [ -n "$pkg" ] || { echo "test demo without demo_pkg"; return 1; }
-    cp "$seed"/demo/*_test.go "$m/$pkg/"
+    mkdir -p "$m/$pkg"; cp "$seed"/demo/*_test.go "$m/$pkg/"
     DEMO="go test -vet=off -count=1 -run TestSeed ./$pkg/"
   else
     mkdir -p $m/cmd_seed_demo
@@ -41,7 +41,8 @@ print(p)")
 }
 place_demo || exit 2
 cd $m
-echo "== demo WITHOUT patch"; timeout 900 $DEMO > /tmp/seedv/$name.without.log 2>&1; r0=$?; tail -2 /tmp/seedv/$name.without.log; echo "exit=$r0"
+failed() { grep -qE "^(--- FAIL|FAIL)" "$1" && return 0; return 1; }
+echo "== demo WITHOUT patch"; timeout 900 $DEMO > /tmp/seedv/$name.without.log 2>&1; r0=$?; failed /tmp/seedv/$name.without.log && r0=1; tail -2 /tmp/seedv/$name.without.log; echo "exit=$r0"
 # the pinned suite must be judged WITHOUT the demonstration file in a pinned package
 [ -n "${pkg:-}" ] && rm -f "$m/$pkg"/seed_*_test.go "$m/$pkg"/*seed*_test.go
 git -C "$d" apply "$seed/patch.diff" || { echo "patch does not apply"; exit 2; }
@@ -50,7 +51,7 @@ echo "== pinned suite WITH patch"
 go test -vet=off -count=1 ./chaincore/client/... ./chaincore/node/... ./conductor/conductrpc/stats/... ./core/cache/... ./core/config/... ./core/encryption/... ./core/sortedmap/... ./core/util/entitywrapper/... ./core/util/orderbuffer/... ./core/viper/... ./sharder/blockdb/... > /tmp/seedv/$name.suite.log 2>&1; rs=$?
 grep -E "^(FAIL|---)" /tmp/seedv/$name.suite.log | grep -v TestPullingEntityCache | head -5
 place_demo >/dev/null
-echo "== demo WITH patch"; timeout 900 $DEMO > /tmp/seedv/$name.with.log 2>&1; r1=$?; tail -2 /tmp/seedv/$name.with.log; echo "exit=$r1"
+echo "== demo WITH patch"; timeout 900 $DEMO > /tmp/seedv/$name.with.log 2>&1; r1=$?; failed /tmp/seedv/$name.with.log && r1=1; tail -2 /tmp/seedv/$name.with.log; echo "exit=$r1"
 echo "RESULT name=$name demo_without=$r0 build=$rb suite=$rs demo_with=$r1"
 [ $r0 -eq 0 ] && [ $rb -eq 0 ] && [ $r1 -ne 0 ] && { [ $rs -eq 0 ] || ! grep -E "^(FAIL|--- FAIL)" /tmp/seedv/$name.suite.log | grep -qv "TestPullingEntityCache\|chaincore/node"; } && { echo "SEED CONFIRMED"; exit 0; }
 echo "SEED NOT CONFIRMED"; exit 1
